@@ -9,6 +9,7 @@ import (
 	"errors"
 	"fmt"
 	"io"
+	"math"
 	"math/bits"
 
 	"github.com/wrgl/wrgl/pkg/encoding"
@@ -176,17 +177,17 @@ func (r *PackfileReader) ReadObject() (objType int, b []byte, err error) {
 	if err != nil {
 		return
 	}
-	var read uint64 = 0
-	b = make([]byte, int(u))
-	for read < u {
-		n, err := r.r.Read(b[read:])
-		if err != nil && err != io.EOF {
-			return 0, nil, err
-		}
-		read += uint64(n)
-		if errors.Is(err, io.EOF) && read < u {
-			return 0, nil, io.ErrUnexpectedEOF
-		}
+	if u > math.MaxInt32 {
+		return 0, nil, fmt.Errorf("object too large: %d bytes", u)
+	}
+	// the length comes from the stream: let the buffer grow with the bytes that
+	// actually arrive instead of allocating it up front
+	b, err = io.ReadAll(io.LimitReader(r.r, int64(u)))
+	if err != nil {
+		return 0, nil, err
+	}
+	if uint64(len(b)) < u {
+		return 0, nil, io.ErrUnexpectedEOF
 	}
 	return
 }
